@@ -17,6 +17,9 @@ class Pat:
     allow_greedy: Optional[bool] = None
     order: Optional[Tuple[str, ...]] = None   # explicit order of named args (C18)
     cb_named: bool = False    # render the callback as `callback = ...`
+    cb_kind: Optional[str] = None   # documented return-type row of the callback (C13): unit|bool|result_unit|value|
+    #                                 option|result|skip|result_skip|filter|filter_result|token|result_token|...
+    cb_fn: Optional[str] = None     # name of the corpus function the callback calls (for the executor's log)
 
 
 def T(lit, **kw):
@@ -54,6 +57,10 @@ class Def:
     @property
     def src_ty(self):
         return 'str' if self.utf8 else '[u8]'
+
+    @property
+    def has_lifetime(self):
+        return any(v.field and "'s" in v.field for v in self.variants)
 
     def patterns(self):
         """all patterns in leaf order (skips first, then variants in order) with their outcome"""
@@ -157,7 +164,7 @@ def render_enum(d: Def, derive_line='#[derive(Logos, Debug, PartialEq, Clone)]')
     else:
         for it in items:
             lines.append(f'#[logos({it})]')
-    lines.append('pub enum Tok {')
+    lines.append("pub enum Tok<'s> {" if d.has_lifetime else 'pub enum Tok {')
     for v in d.variants:
         for p in v.pats:
             lines.append(f'    #[{p.kind}({render_pat_args(p)})]')
@@ -170,8 +177,8 @@ def render_enum(d: Def, derive_line='#[derive(Logos, Debug, PartialEq, Clone)]')
 
 
 HARNESS = '''
-    pub type Lx = Lexer<'static, Tok>;
-    pub type Item = Option<Result<Tok, <Tok as Logos<'static>>::Error>>;
+    pub type Lx = Lexer<'static, TOK>;
+    pub type Item = Option<Result<TOK, <TOK as Logos<'static>>::Error>>;
     pub fn h_new(src: &'static SRC) -> Lx { Lexer::new(src) }
     pub fn h_new_partial(src: &'static SRC) -> Lx { Lexer::new_partial(src) }
     pub fn h_next(lex: &mut Lx) -> Item { lex.next() }
@@ -187,7 +194,8 @@ def render_module(d: Def) -> str:
     extras_default = ''
     return (f'pub mod {d.id} {{\n    #![allow(unused_imports, dead_code)]\n    use logos::{{Lexer, Logos, Skip, Filter, FilterResult}};\n'
             f'    pub type SRC = {d.src_ty};\n'
-            f'{indent(d.prelude)}\n{indent(render_enum(d))}\n{HARNESS}{extras_default}}}\n')
+            f'{indent(d.prelude)}\n{indent(render_enum(d))}\n'
+            + HARNESS.replace('TOK', "Tok<'static>" if d.has_lifetime else 'Tok') + f'{extras_default}}}\n')
 
 
 def indent(s, n=4):
@@ -203,7 +211,7 @@ def render_replay_main(defs: List[Def]) -> str:
     arms = []
     for d in defs:
         conv = 'std::str::from_utf8(data).expect("valid utf8")' if d.utf8 else 'data'
-        arms.append(f'        "{d.id}" => run::<corpus::{d.id}::Tok>({conv}, partial, start),')
+        arms.append(f'        "{d.id}" => run::<corpus::{d.id}::Tok>({conv}, partial, start),')   # lifetime inferred
     return '''use logos::{Lexer, Logos};
 fn run<'s, T: Logos<'s> + std::fmt::Debug>(src: &'s T::Source, partial: bool, start: usize) where T::Extras: Default, T::Error: std::fmt::Debug {
     let mut lex: Lexer<'s, T> = if partial { Lexer::new_partial(src) } else { Lexer::new(src) };
